@@ -2407,4 +2407,49 @@ example :
     exact ⟨by decide, by decide, lookup_none_of_noid _ _ (by decide), by decide⟩
   exact ⟨e1, e2, e3, hok, h3, p3, h4, p4, by decide, by decide, by decide⟩
 
+/-- `doTx_Ledger` with "a confirmed transaction is not submitted again" replaced by "the transaction has an input": a
+confirmed transaction with an input is refused, because its inputs are spent -/
+theorem doTx_Ledger_of_inputs (e : Env) (s : St) (lh : Int) (i : Nat) (C : List Nat) (h : Ledger e s C)
+    (hyp : (doTx e s lh i).2 = .ok → (e.tx i).id = i ∧ (i ∈ C → (e.tx i).ins ≠ []) ∧ (e.tx i).coinbase = false) :
+    Ledger e (doTx e s lh i).1 C := by
+  apply doTx_Ledger e s lh i C h
+  intro hok
+  obtain ⟨y1, y3, y2⟩ := hyp hok
+  refine ⟨y1, ?_, y2⟩
+  intro hiC
+  obtain ⟨r, hr⟩ := List.exists_mem_of_ne_nil _ (y3 hiC)
+  obtain ⟨_, hadm, _⟩ := XV.C03.doTx_ok e s lh i hok
+  obtain ⟨u, hu, _⟩ := (XV.C03.admit_sound s lh (e.tx i) hadm).1 r hr
+  rw [h.led.insSpent i (List.mem_append_left _ hiC) r hr] at hu
+  cases hu
+
+/-- the ledger invariant implies the strong pool invariant: the two developments agree on the pool -/
+theorem Ledger.toPoolLive {e : Env} {s : St} {C : List Nat} (h : Ledger e s C) : PoolLive e s := by
+  have hl := h.led
+  obtain ⟨_, hndP, hCP⟩ := List.nodup_append.mp hl.nodupA
+  obtain ⟨_, hoP, hoCP⟩ := List.pairwise_append.mp hl.order
+  have hP : ∀ i ∈ s.pool, i ∈ C ++ s.pool := fun i hi => List.mem_append_right _ hi
+  have hnotC : ∀ i ∈ s.pool, i ∉ C := fun i hi hc => hCP i hc i hi rfl
+  have hmat : ∀ i ∈ s.pool, ∀ idx, liveSlot e C i idx → matSlot (e.tx i) idx = true := by
+    intro i hi idx hlv
+    rcases hlv with hm | ⟨hc, _⟩
+    · exact hm
+    · exact absurd hc (hnotC i hi)
+  refine ⟨h.nodupU, ⟨hndP, fun i hi => hl.idEq i (hP i hi), h.poolNonCoinbase, fun i hi => hl.insNodup i (hP i hi),
+    fun i hi => hl.noSelf i (hP i hi), fun i hi => h.balanced i (hP i hi) (h.poolNonCoinbase i hi), hoP,
+    ?_, fun i hi => hl.insSpent i (hP i hi), fun i hi j hj => hl.disjoint i (hP i hi) j (hP j hj), ?_, ?_⟩,
+    h.conservation⟩
+  · intro i hi idx hm
+    rcases hl.outs i (hP i hi) idx (Or.inl hm) with hpres | ⟨j, hj, r, hr, hrt, hro⟩
+    · exact Or.inl hpres
+    · right
+      rcases List.mem_append.mp hj with hjC | hjP
+      · exact absurd hrt (hoCP j hjC i hi r hr)
+      · exact ⟨j, hjP, r, hr, hrt, hro⟩
+  · intro j hj r hr hrP
+    obtain ⟨_, c2, c3⟩ := hl.cites j (hP j hj) r hr
+    exact ⟨hmat r.tx hrP r.off c2, c3⟩
+  · intro i hi idx u hu
+    exact hmat i hi idx (hl.rows i idx u hu).2
+
 end XV.C02
